@@ -1283,6 +1283,20 @@ def cmdcluster_family(seed, n, maxlen=2):
     return out
 
 
+def poslast_family(seed, maxlen=3):
+    """`last` over a positional item: every word it can take is taken (a `non_strict` one stops at `--`), the value
+    is the last one; what it cannot take is somebody else's or a failure"""
+    out = []
+    for i in range(6):
+        st = ["any", "non_strict", "non_strict"][i % 3]
+        items = [pos("p0", "last", st, ["str", "int"][i % 2])]
+        if i % 3 == 2:
+            items.append(pos("p1", "opt", "strict"))
+        named = [sw("o1", "-v")] if i % 2 else []
+        out.append(mkdef(f"plast{seed}_{i}", level(named, postail(*items)), maxlen=maxlen, extras=("dd",), spells=("sep",), words=("1", "x")))
+    return out
+
+
 def subver_family(seed, n, maxlen=3):
     """a version configured on a subcommand only (or on the root only): the short name of the version flag is a flag
     to the tokeniser everywhere, so `leaf -sV` is `leaf -s -V` and answers with the version the leaf declares"""
